@@ -161,7 +161,10 @@ func zzC14(mode int) {
 	syntactic := len(words) == 2 && zzLowerEq(words[0], "bearer")
 
 	// verifier outcome
-	info := &TokenInfo{UserID: "u"}
+	// the user id is the verifier's opaque, case-sensitive subject: any bytes — letter case and padding included — reach
+	// the handler (and the session binding built on it, C11) exactly as the verifier gave them
+	uid := vStringLen("userID", 1)
+	info := &TokenInfo{UserID: uid}
 	// the expiration is any instant of the next ~35 000 years (tokens that "never expire" carry year-9999 sentinels,
 	// further away than the 292 years a time.Duration can hold), or absent
 	expSec, expNsec := 1<<33, 0 // far future
@@ -274,6 +277,7 @@ func zzC14(mode int) {
 	if admit {
 		vAssert(inner.ran == 1, "C14.admit.runs-once")
 		vAssert(inner.seen == info, "C14.admit.sees-verifier-info")
+		vAssert(inner.seen != nil && inner.seen.UserID == uid, "C14.admit.user-id-untouched")
 		vAssert(w.code == 0 && w.wrote == 0, "C14.admit.no-status-written")
 		vAssert(calls == 1 && gotToken == words[1], "C14.admit.token-passed")
 		vReach("admitted")
